@@ -160,3 +160,41 @@ fn c10_k2_history_tick() {
     assert!(matches!(first, Some(e) if e.event == KeyCode::D && e.ticks_since_occurrence == 0));
     kani::cover!(ages[0] == u16::MAX, "saturated age");
 }
+
+// @harness name=c17_k3_eager_dequeue prop=C17,C02 tier=quick timeout=1800
+// @encodes Layout::dequeue (Press arm with an eager tap-dance in progress), TapDanceEagerState::is_expired / incr_taps / set_expired, do_action (KeyCode arm via the layer table)
+// @inst Layout<2, 1, u8> with a local one-layer table [a, b]
+// @bounds an eager tap-dance of key (0,1) with 2 actions [x, y], symbolic remaining timeout and tap count 0..=2 (2 = list exhausted, a state that exists when events are dequeued outside tick(), e.g. on queue overflow); the key is pressed again
+// @assumes none beyond the bounds
+// @spec never a panic; while the dance is live (time left and actions left) the tap performs exactly the action for its tap number and the count grows by one; otherwise the key's ordinary layer action is performed
+#[kani::proof]
+#[kani::unwind(5)]
+fn c17_k3_eager_dequeue() {
+    let layers: [[[Action<'_, u8>; 2]; 1]; 1] = [[[Action::KeyCode(KeyCode::A), Action::KeyCode(KeyCode::B)]]];
+    let src: [Action<'_, u8>; 2] = [Action::NoOp, Action::NoOp];
+    let a0: Action<'_, u8> = Action::KeyCode(KeyCode::X);
+    let a1: Action<'_, u8> = Action::KeyCode(KeyCode::Y);
+    let acts: [&Action<'_, u8>; 2] = [&a0, &a1];
+    let mut l: Layout<'_, 2, 1, u8> = vk_layout_literal(&src, &layers);
+    let t0: u16 = kani::any();
+    let n0: u16 = kani::any();
+    kani::assume(n0 <= 2);
+    l.tap_dance_eager = Some(TapDanceEagerState { coord: (0, 1), actions: &acts, timeout: t0, orig_timeout: 300, num_taps: n0 });
+    l.last_press_tracker.coord = (0, 1);
+    let ev = l.dequeue(Queued { event: Event::Press(0, 1), since: kani::any() });
+    assert!(matches!(ev, CustomEvent::NoEvent));
+    assert!(l.states.len() == 1);
+    let live = t0 != 0 && n0 < 2;
+    let want = if live {
+        if n0 == 0 { KeyCode::X } else { KeyCode::Y }
+    } else {
+        KeyCode::B
+    };
+    assert!(matches!(l.states[0], NormalKey { keycode, coord: (0, 1), .. } if keycode == want));
+    if live {
+        assert!(matches!(&l.tap_dance_eager, Some(s) if s.num_taps == n0 + 1 && s.timeout == 300));
+    }
+    kani::cover!(live && n0 == 1, "second tap performs the second action");
+    kani::cover!(!live && n0 == 2, "exhausted list falls back to the layer action");
+    core::mem::forget(l);
+}
